@@ -436,6 +436,8 @@ def run_check(prop, tier, seed):
     t0 = time.time()
     if 'custom' in spec:
         return spec['custom'](sys.modules[__name__], prop, tier, seed)
+    if 'pre' in spec:
+        spec['pre']()
     violations = []      # (replay path, description)
     known_hits = []
     all_stats = []
